@@ -6,6 +6,7 @@ import (
 	"testing"
 	"time"
 
+	"github.com/google/gopacket/layers"
 	"github.com/veesix-networks/osvbng/pkg/config"
 	"github.com/veesix-networks/osvbng/pkg/config/subscriber"
 	"github.com/veesix-networks/osvbng/pkg/dataplane"
@@ -25,6 +26,12 @@ func c07IPoE(entry string, n []uint64, f []string) string {
 	case "sub82":
 		c, r := parseOption82(data)
 		return c07Ok(c07TBN(c), c07TBN(r))
+	case "ipoeopts": // ipoeopts <wanted,type,...> <value> ...: getDHCPMessageType / getDHCPOption over decoded options
+		var opts layers.DHCPOptions
+		for i := 1; i < len(n); i++ {
+			opts = append(opts, layers.DHCPOption{Type: layers.DHCPOpt(n[i]), Length: uint8(len(c07Arg(f, i-1))), Data: c07Arg(f, i-1)})
+		}
+		return c07Ok(c07U(uint64(getDHCPMessageType(opts))), c07TBN(getDHCPOption(opts, layers.DHCPOpt(c07Num(n, 0)))))
 	case "bkl2gw": // bkl2gw <N>,<K>: N DHCP packets of an L2GW group while nobody drains the K-slot trigger queue
 		N, K := int(c07Num(n, 0)), int(c07Num(n, 1))
 		ch := make(chan *dataplane.ParsedPacket, K)
